@@ -20,6 +20,7 @@ CASES = [
     ("Solvers", "SolversBug_pvi_ring_mod_period.cfg", "RingEqualsDocumented"),
     ("Solvers", "SolversBug_threshold_no_gamma.cfg", "VI"),
     ("SolveLoop", "SolveLoopBug_no_break.cfg", "Inv"),
+    ("PIModel", "PIModelBug_all_components.cfg", "PI"),
     ("GaussSeidel", "GaussSeidelBug_unmasked_scatter.cfg", "Written"),
     ("GaussSeidel", "GaussSeidelBug_perm_as_inverse.cfg", "NaturalOrder"),
     ("Matrices", "MatricesBug_max_before_abs.cfg", "ErrorIffDeviation"),
